@@ -450,8 +450,8 @@ def is_static(block) -> bool:
     return '"=' not in json.dumps(block)
 
 
-def plant_in_map(r, spec_map, root, block=None):
-    """add a key holding a failing sub-expression at a random position; returns (position, failure).
+def plant_in_map(r, spec_map, root, block=None, key="zz"):
+    """add a key (`key`) holding a failing sub-expression at a random position; returns (position, failure).
     If the whole site `block` is static, the plant is identifier-free too (no variable, no macro variable): the
     block then evaluates to the same (failing) value on every reconcile, whatever the inputs are"""
     exprs = failing_exprs(root)
@@ -462,8 +462,47 @@ def plant_in_map(r, spec_map, root, block=None):
         positions = [p for p in positions if not p.startswith("macro")]
     fname, f = r.choice(sorted(exprs.items()))
     pname = r.choice(positions)
-    spec_map["zz"] = MAP_POSITIONS[pname](f)
+    spec_map[key] = MAP_POSITIONS[pname](f)
     return ("static:" if static else "") + pname, fname
+
+
+# the keys of a managed object that koreo itself writes after the template / the overlays were evaluated (the forced
+# name/kind overlay: `_forced_overlay` — apiVersion, kind, metadata.name, metadata.namespace; a `metadata` that is not
+# a map is replaced as a whole).  A failing sub-expression that the author wrote at one of them is a failing
+# expression like any other — although its (error) value would be replaced a moment later.
+FORCED_PATHS = [("apiVersion",), ("kind",), ("metadata",), ("metadata", "name"), ("metadata", "namespace")]
+
+
+def plant_at_forced_key(r, obj_map, root, block=None):
+    """plant at a key that the forced name/kind overlay overwrites afterwards; returns (position, failure)"""
+    path = r.choice(FORCED_PATHS)
+    target = obj_map
+    for k in path[:-1]:
+        if not isinstance(target.get(k), dict):
+            target[k] = {}
+        target = target[k]
+    pos, fail = plant_in_map(r, target, root, block=block, key=path[-1])
+    return f"{pos}@{'.'.join(path)}", fail
+
+
+def resource_like_tree(r):
+    """wire tree of a Kubernetes-object-shaped map whose only error object(s) sit at or below a key that the forced
+    name/kind overlay replaces (injected stream: celpy's answer for a template / an overlay)"""
+    path = r.choice(FORCED_PATHS)
+    bad = ERR if r.random() < 0.6 else gen_tree(r, 2, force_err=True)
+    meta = [["labels", {"m": [["l", "s"]]}]]
+    top = [["spec", {"m": [["x", {"i": "7"}], ["list", [{"m": [["k", "s"]]}]]]}]]
+    if path == ("metadata",):
+        top.append(["metadata", bad])
+    elif path[0] == "metadata":
+        meta.insert(r.randint(0, 1), [path[1], bad])
+        top.append(["metadata", {"m": meta}])
+    else:
+        top.append([path[0], bad])
+        if r.random() < 0.7:
+            top.append(["metadata", {"m": meta}])
+    r.shuffle(top)
+    return {"m": top}
 
 
 def plant_scalar(r, root, positions=("top", "compare")):
@@ -483,7 +522,11 @@ def synthetic(r, rec):
     if c < 0.3:
         return ("raise", r.choice([ValueError("injected"), KeyError("injected"), TypeError("injected"),
                                    RuntimeError("injected")])), "raise-other"
-    w = dedup_keys(gen_tree(r, 0, force_err=True))
+    if c < 0.45:
+        # the error object sits exactly where koreo's own forced name/kind overlay writes afterwards
+        w = dedup_keys(resource_like_tree(r))
+    else:
+        w = dedup_keys(gen_tree(r, 0, force_err=True))
     return ("value", tree_to_py(w, r, celpy, celtypes)), "value-with-error"
 
 
@@ -659,11 +702,22 @@ def plant_rf(r, spec, aux):
     elif site in ("locals", "return"):
         d["pos"], d["fail"] = plant_in_map(r, spec[site], "inputs", block=spec[site])
     elif site == "resource":
-        target = r.choice([spec["resource"], spec["resource"]["spec"], spec["resource"]["metadata"]["labels"]])
-        d["pos"], d["fail"] = plant_in_map(r, target, "inputs", block=spec["resource"])
+        res = spec["resource"]
+        if not ABSORBING[0] and r.random() < 0.35:
+            d["pos"], d["fail"] = plant_at_forced_key(r, res, "inputs", block=res)
+        else:
+            targets = [res]
+            if isinstance(res.get("spec"), dict):
+                targets.append(res["spec"])
+            if isinstance(res.get("metadata"), dict) and isinstance(res["metadata"].get("labels"), dict):
+                targets.append(res["metadata"]["labels"])
+            d["pos"], d["fail"] = plant_in_map(r, r.choice(targets), "inputs", block=res)
     elif site == "create":
-        target = r.choice([spec["create"]["overlay"], spec["create"]["overlay"]["spec"]])
-        d["pos"], d["fail"] = plant_in_map(r, target, "inputs")
+        if not ABSORBING[0] and r.random() < 0.25:
+            d["pos"], d["fail"] = plant_at_forced_key(r, spec["create"]["overlay"], "inputs")
+        else:
+            target = r.choice([spec["create"]["overlay"], spec["create"]["overlay"]["spec"]])
+            d["pos"], d["fail"] = plant_in_map(r, target, "inputs")
     else:
         kind, i = site
         ov = spec["overlays"][i]
@@ -678,9 +732,12 @@ def plant_rf(r, spec, aux):
             if "overlay" in ov:
                 target = ov["overlay"]
                 inner = [v for v in target.values() if isinstance(v, dict)]
-                if inner and r.random() < 0.5:
-                    target = inner[0]
-                d["pos"], d["fail"] = plant_in_map(r, target, "inputs")
+                if not ABSORBING[0] and r.random() < 0.25:
+                    d["pos"], d["fail"] = plant_at_forced_key(r, target, "inputs")
+                else:
+                    if inner and r.random() < 0.5:
+                        target = inner[0]
+                    d["pos"], d["fail"] = plant_in_map(r, target, "inputs")
             else:
                 d.update(plant_vf(r, aux["ovf"], root="resource"))
                 d["site"] = f"ovf[{i}].{d['site']}"
